@@ -6,6 +6,7 @@ pub mod dbg;
 pub mod ll;
 pub mod lr;
 pub mod lsprops;
+pub mod lssched;
 pub mod nopanic;
 pub mod robust;
 pub mod scanner;
@@ -24,6 +25,7 @@ pub fn run(id: &str, tier: Tier, replay: Option<&str>) -> i32 {
         "C26" => nopanic::run(tier, replay),
         "C26-deep" => nopanic::deep_worker(&std::env::args().skip(2).collect::<Vec<_>>()),
         "C27" | "C28" | "C30" | "C34" => lsprops::run(id, tier, replay),
+        "C29" => lssched::run(tier, replay),
         "C05" | "C06" | "C07" | "C08" => analysis::run(id, tier, replay),
         "dbg" => dbg::run(&std::env::args().skip(2).collect::<Vec<_>>()),
         "count" => {
